@@ -184,6 +184,24 @@ func units(tier string, prop string, mon Monitor) []runner.Unit {
 			RunOne(u, base, pats, explore.Bound{}, mon)
 		}})
 	}
+	// (3c) a reader that pauses for more than two minutes while the peer keeps writing: what piles
+	// up in the receive structures and in the connection waits longer than any timeout of the stack
+	for bi, base := range []Params{
+		{CW: many(6000, 100), SW: []int{3}, RB: 4096, CTP: "nil", STP: "nil", NSess: 1},
+		{CW: []int{7}, SW: many(6000, 100), RB: 65536, CTP: "nil", STP: "nil", NSess: 1},
+	} {
+		if tier != "thorough" {
+			continue // each execution spans 130 virtual seconds of 1 ms back-pressure polls (minutes of real time): thorough tier only
+		}
+		base := base
+		base.Seed = int64(2600 + bi)
+		base.Prop = prop
+		base.ReadDelay = 130 * time.Second
+		base.Horizon = 600 * time.Second
+		us = append(us, runner.Unit{Name: fmt.Sprintf("long-paused-reader-%d", bi), Cost: 6, Run: func(u *runner.U) {
+			RunOne(u, base, pats, explore.Bound{}, mon)
+		}})
+	}
 	// (4) schedules: all executions with <= Ds deviations on base scenarios
 	schedBases := []Params{
 		{CW: []int{1, 1025}, SW: []int{2000}, RB: 4096, CTP: "nil", STP: "nil", NSess: 2},
